@@ -144,6 +144,9 @@ def run(tier: str, seed: int) -> int:
             _replay_all(rep, cfg, behs, budget // 2, rng, terminal_api=True)
             _replay_all(rep, cfg, behs[: budget // 4], budget // 4, rng, jit=False)
 
+    # code -> spec: rank-abstracted traces of real adaptive solves validated by TLC (TraceAdaptiveLoop.tla)
+    _real_traces(rep, tier, seed)
+
     # vacuity: every action of the loop must have been taken somewhere
     needed = ["LoopEnter", "RloopBody", "RloopExit", "InterpSkip", "InterpBeyond", "InterpAt", "Continue", "Emit", "WhileTest", "AppendStep", "GridStep"]
     missing = [a for a in needed if action_cov.get(a, 0) == 0]
@@ -157,6 +160,57 @@ def run(tier: str, seed: int) -> int:
         "histories are bounded by MaxAtt attempts per configuration; controllers are replayed with integer exponents",
     ]
     return rep.finish()
+
+
+def _real_traces(rep, tier, seed):
+    from harness import l0_trace
+    from probdiffeq import ivpsolve
+
+    rng = random.Random(seed + 77)
+    controls = [
+        ("I-default", lambda: ivpsolve.control_integral()),
+        ("PI-default", lambda: ivpsolve.control_proportional_integral()),
+        ("I-tight", lambda: ivpsolve.control_integral(safety=0.8, factor_min=0.5, factor_max=1.5)),
+        ("PI-custom", lambda: ivpsolve.control_proportional_integral(safety=0.9, factor_min=0.1, factor_max=5.0, exponent_integral=0.5, exponent_proportional=0.2)),
+    ]
+    layouts = [[0.0, 0.3, 0.30000000001, 0.7, 1.0], [0.0, 1.0], [0.0, 0.05, 0.1, 0.15, 0.2, 1.0], [0.0, 0.5, 1.0 - 1e-9, 1.0]]
+    combos = []
+    for ssm_name in ("dense", "iso", "bd"):
+        for sv in ("solver", "mle", "dynamic"):
+            for strat in ("filter", "fixedpoint"):
+                for ts in ("ts0", "ts1"):
+                    combos.append((ssm_name, sv, strat, ts))
+    rng.shuffle(combos)
+    n = 6 if tier == "quick" else 72
+    traces, meta = [], []
+    for j, (ssm_name, sv, strat, ts) in enumerate(combos[:n]):
+        cname, cmk = controls[j % len(controls)]
+        clip = bool((j // 2) % 2)
+        prob = "vdp2" if (j % 3 == 2 and ssm_name != "iso") else "logistic"
+        tol = 10.0 ** (-rng.randint(2, 7))
+        kw = dict(control=cmk(), clip=clip, save_at=layouts[j % len(layouts)], dt0=rng.choice([0.5, 0.05, 0.001]), eps=1e-8)
+        est = "state" if j % 5 == 4 else "residual"
+        events, sol = l0_trace.record(prob, ssm_name, ts if prob == "logistic" else "ts0", sv, strat, atol=tol * 0.1, rtol=tol, estimator=est, **kw)
+        traces.append(l0_trace.abstract(events, sol, **kw))
+        meta.append(f"{prob}/{ssm_name}/{ts}/{sv}/{strat}/{cname}/clip={int(clip)}/tol={tol:g}/dt0={kw['dt0']}/{est}")
+    if not traces:
+        return
+    verdicts, res = l0_trace.validate(traces)
+    rep.states += res.distinct
+    rep.transitions += res.generated
+    nrej = 0
+    for tr, m, v in zip(traces, meta, verdicts):
+        rep.traces += 1
+        rej = sum(1 for e in tr["ev"] if e["op"] == "attempt" and not e["acc"])
+        nrej += rej
+        rep.add_case(("real-trace", m) if rej or any(e["op"] in ("at", "beyond") for e in tr["ev"]) else None)
+        if v is None or not v["ok"]:
+            why = "no verdict" if v is None else v["why"]
+            at = 0 if v is None else v["at"] - 1
+            rep.violation(f"impl:real-trace:{why.split(':')[0].replace(' ', '-')}:{'-'.join(why.split(':')[-1].split()[:6])}",
+                          f"{m}: trace of a real solve rejected at event {at}: {why}", {"config": m, "trace": tr, "rejected_at": at})
+    rep.extra["real_traces"] = len(traces)
+    rep.extra["real_trace_rejections_seen"] = nrej
 
 
 def _ser(cfg):
